@@ -8,7 +8,7 @@ MAP = [('single-pass', 'C01'), ('insert/emplace with an argument', 'C10'), ('era
        ('insert(node)', 'C03'), ('removed duplicates', 'C03'), ('unstable sort', 'C03'), ('FlatSet::merge', 'C03'), ('SmallSet::erase', 'C11'),
        ('comparison operators', 'C04'), ('SmallSet::merge', 'C04'), ('operator==', 'C04'), ('insert of several elements in the middle', 'C09'),
        ('assign(n, v) leaked', 'C09'), ('shrink_to_fit terminated', 'C09'), ('uninitialized_default_construct_n', 'C15'), ('FixedCapacityVector<T, 0>', 'C17'), ('FlatSet copy assignment', 'C09'), ('SmallSet lost elements when growing', 'C09'), ('SmallSet copy assignment', 'C09'), ('FlatSet::count with a heterogeneous key', 'C03'), ('wrapped around size() + count', 'C08'), ('leaked the newly allocated storage', 'C09'), ('shift_right leaked', 'C09'),
-       ('leaked their temporary element', 'C09'), ('lost its dynamic storage', 'C09')]
+       ('leaked their temporary element', 'C09'), ('lost its dynamic storage', 'C09'), ('no longer triggers -Wterminate', 'C09')]
 log = subprocess.run(['git', '-C', '/repo', 'log', '--format=%h %s', 'bf6ad16..HEAD'], capture_output=True, text=True).stdout.strip().splitlines()
 p = os.path.join(ROOT, 'KNOWN_FINDINGS.txt')
 old = open(p).read().splitlines() if os.path.exists(p) else []
